@@ -99,6 +99,7 @@ static void crash_reporter(const char *cls, const char *sig) {
 	int t = rt::sched_current_task();
 	int op = rs ? rs->cur_op[t <= MAXTASK ? t : 0] : -1;
 	const char *kn = (rs && op >= 0 && op < (int)rs->plan->ops.size()) ? kind_name(rs->plan->ops[op].kind) : "none";
+	if (model::g_in_model) { kn = "model_computation"; op = -1; }
 	std::string vmf;
 	if (rs && op >= 0) {
 		const Op &o = rs->plan->ops[op];
